@@ -151,7 +151,14 @@ DRd0 ==
   /\ IF MaxOf(DSz(dl), 1, 0) <= Line.iu THEN Line.k = Len(DSz(dl)) ELSE Line.k = Err
   /\ l' = l + 1 /\ UNCHANGED <<fvars, dvars, case, iu, failed, done, out, dl, sl, dpos>>
 
-DMatched == DDir \/ DMut \/ DR0 \/ DRN \/ DRd0
+(* a Tread off the protocol's offset rule (C06): the reply is what the transcribed window of Ufs.Read
+   gives on the snapshot of the last read at offset 0 (none: empty); the listing state is untouched *)
+DRAt ==
+  /\ l <= Len(Trace) /\ Line.act = "ReadAt" /\ ~failed /\ dstate \in {"new", "open"}
+  /\ Line.r = UfsWindow(IF dstate = "new" THEN <<>> ELSE DSz(sl), Line.off, Line.count)
+  /\ l' = l + 1 /\ UNCHANGED <<fvars, dvars, case, iu, failed, done, out, dl, sl, dpos>>
+
+DMatched == DDir \/ DMut \/ DR0 \/ DRN \/ DRd0 \/ DRAt
 
 DReject ==
   /\ l <= Len(Trace) /\ ~failed /\ Line.act # "Dir" /\ ~ENABLED DMatched
